@@ -49,6 +49,7 @@ type stepIn struct {
 	Outcome string   `json:"outcome,omitempty"` // resume: ok conflict refused cut
 	CutAt   int      `json:"cutat,omitempty"`   // resume ok: sever (loudly) on receiving the k-th resent chunk (1-based), 0 = never
 	CloseAt int      `json:"closeat,omitempty"` // resume ok: the application calls Close while the resend loop stands between the k-th and the next resent chunk
+	Window  bool     `json:"window,omitempty"`  // resume ok: a SECOND failure (cut, detection, redial) happens between the resume response and the start of the resumed run
 	HoldMs  int      `json:"holdms,omitempty"`  // resume ok: the broker withholds the ack of the first resent chunk for this long (the script goes on afterwards)
 }
 
@@ -61,6 +62,13 @@ type caseIn struct {
 	Steps    []stepIn `json:"steps"`
 	Siblings []string `json:"siblings,omitempty"` // other upstreams on the same connection ("unreliable", "partial"): environment, not under test;
 	// after a redial the broker answers THEIR resume requests first (their new run clears their stored chunks)
+	// the run that was started on the dead connection inside the resume window ends at once; its result loop
+	// cleans up asynchronously (it is not awaited by run) and, if that happens after the next run registered
+	// its ack waiters, closes THEIR channels (a defect of the unchanged code, see Sig F43 below).  Regular
+	// window cases answer the following resume request 30 ms late so that the cleanup is over; a probe case
+	// answers at once.
+	LateCleanupProbe bool `json:"latecleanupprobe,omitempty"`
+	ExpiryMs     int  `json:"expiryms,omitempty"`     // WithUpstreamExpiryInterval (0 = the default, 10 s)
 	AckTimeoutMs int  `json:"acktimeoutms,omitempty"` // WithUpstreamAckTimeout (0 = the default: none)
 	SliceMode int     `json:"slicemode,omitempty"` // 1 reuse one slice, 2 windows of one array, 3 fresh slices; 0 = derived
 }
@@ -105,9 +113,35 @@ type pauseLogger struct {
 	at      int
 	paused  chan struct{}
 	release chan struct{}
+
+	infoArmed   bool
+	infoPaused  chan struct{}
+	infoRelease chan struct{}
 }
 
-func (l *pauseLogger) Infof(context.Context, string, ...any)  {}
+func (l *pauseLogger) Infof(_ context.Context, format string, _ ...any) {
+	// the supervisor of an upstream logs this between the resume exchange and the start of the resumed run
+	if !strings.HasPrefix(format, "Succeeded in resuming upstream") {
+		return
+	}
+	l.mu.Lock()
+	hit := l.infoArmed
+	l.infoArmed = false
+	paused, release := l.infoPaused, l.infoRelease
+	l.mu.Unlock()
+	if hit {
+		close(paused)
+		select {
+		case <-release:
+		case <-time.After(3 * wd):
+		}
+	}
+}
+func (l *pauseLogger) armInfo() {
+	l.mu.Lock()
+	l.infoArmed, l.infoPaused, l.infoRelease = true, make(chan struct{}), make(chan struct{})
+	l.mu.Unlock()
+}
 func (l *pauseLogger) Warnf(context.Context, string, ...any)  {}
 func (l *pauseLogger) Errorf(context.Context, string, ...any) {}
 func (l *pauseLogger) Debugf(_ context.Context, format string, _ ...any) {
@@ -365,6 +399,13 @@ func j2mode(c *caseIn) uint64 {
 	return uint64(len(c.Steps)+len(c.Rev0)+c.Thresh) % 3
 }
 
+func expiryOpt(c *caseIn) iscp.UpstreamOption {
+	if c.ExpiryMs > 0 {
+		return iscp.WithUpstreamExpiryInterval(time.Duration(c.ExpiryMs) * time.Millisecond)
+	}
+	return func(*iscp.UpstreamConfig) {}
+}
+
 type pendingWrite struct {
 	term string
 	done chan error
@@ -505,7 +546,7 @@ func runCase(c *caseIn, r *rng.R) (res result) {
 		defer cancel()
 		var err error
 		up, err = conn.OpenUpstream(ctx, "sess", iscp.WithUpstreamFlushPolicy(pol), iscp.WithUpstreamQoS(qos),
-			iscp.WithUpstreamCloseTimeout(2*time.Second), iscp.WithUpstreamAckTimeout(time.Duration(c.AckTimeoutMs)*time.Millisecond),
+			iscp.WithUpstreamCloseTimeout(2*time.Second), iscp.WithUpstreamAckTimeout(time.Duration(c.AckTimeoutMs)*time.Millisecond), expiryOpt(c),
 			iscp.WithUpstreamClosedEventHandler(iscp.UpstreamClosedEventHandlerFunc(func(ev *iscp.UpstreamClosedEvent) {
 				e.mu.Lock()
 				e.closedEv = append(e.closedEv, ev.Err != nil)
@@ -550,7 +591,14 @@ func runCase(c *caseIn, r *rng.R) (res result) {
 		evT = append(evT, ev)
 		retT = append(retT, fmt.Sprint(ret))
 	}
-	bad := func(msg string) result { res.direct = msg; return res }
+	sawWindow := false
+	bad := func(msg string) result {
+		res.direct = msg
+		if sawWindow && c.LateCleanupProbe && res.sig == "" && (strings.Contains(msg, "stayed in the sent storage") || strings.Contains(msg, "not processed within the watchdog")) {
+			res.sig = "F43:late-cleanup-of-the-previous-run-closes-the-new-run's-ack-waiters"
+		}
+		return res
+	}
 	discard := func(msg string) result { res.discard = msg; return res }
 	retOf := func(err error) int {
 		if err != nil {
@@ -569,6 +617,7 @@ func runCase(c *caseIn, r *rng.R) (res result) {
 	expectHits := int32(0)
 	earlyOps := 0 // API calls made between the last cut and its detection
 	needResume := false
+	afterWindow := false
 	var cutStored []int
 	timedOut := map[uint32]bool{} // chunks removed by the CONFIGURED ack timeout on a live connection (by design)
 	// a chunk may leave the sent storage only through an acknowledgement or a configured ack timeout
@@ -1008,6 +1057,9 @@ func runCase(c *caseIn, r *rng.R) (res result) {
 			if linkUp {
 				continue
 			}
+			if op.HoldMs > 0 {
+				time.Sleep(time.Duration(op.HoldMs) * time.Millisecond) // a long outage: every dial is refused meanwhile
+			}
 			n0 := len(b.Sessions())
 			e.gateOpen.Store(true)
 			if !broker.WaitFor(wd, func() bool {
@@ -1036,6 +1088,10 @@ func runCase(c *caseIn, r *rng.R) (res result) {
 				res.sig = "F9:stream-missed-the-outage"
 				return bad("no UpstreamResumeRequest within the watchdog after the redial: the stream did not notice the outage or was not allowed to resume (e.g. while a Close is draining), or is stuck")
 			}
+			if afterWindow && !c.LateCleanupProbe {
+				time.Sleep(30 * time.Millisecond)
+			}
+			afterWindow = false
 			storedAtResume := listStored()
 			if len(c.Siblings) > 0 && sibAnswered != inc {
 				// the broker answers the siblings first: a non-reliable stream's new run clears ITS stored chunks
@@ -1109,6 +1165,9 @@ func runCase(c *caseIn, r *rng.R) (res result) {
 				e.mu.Unlock()
 				needResume = false
 				lists0 := st.lists.Load()
+				if op.Window {
+					plog.armInfo()
+				}
 				closeAt := 0
 				if op.CloseAt > 0 && op.CloseAt < nexp {
 					closeAt = op.CloseAt
@@ -1116,6 +1175,52 @@ func runCase(c *caseIn, r *rng.R) (res result) {
 				}
 				rq.s.Send(&message.UpstreamResumeResponse{RequestID: rq.msg.RequestID, AssignedStreamIDAlias: alias, ResultCode: message.ResultCodeSucceeded})
 				emit("EResume ROk", 0)
+				if op.Window {
+					// the supervisor stands between the resume exchange and the start of the resumed run: a second
+					// failure is detected by the connection and redialled meanwhile
+					select {
+					case <-plog.infoPaused:
+					case <-time.After(wd):
+						return bad("harness: the library did not log its resume success")
+					}
+					sess := b.Current()
+					e.gateOpen.Store(false)
+					sess.Link.Sever(memtr.Loud)
+					linkUp = false
+					res.outages++
+					emit("ELinkDown false", 0)
+					if !broker.WaitFor(wd, func() bool { return e.gateHits.Load() != expectHits }) {
+						return bad("the client never noticed the second dead link (no redial attempt within the watchdog)")
+					}
+					n0 := len(b.Sessions())
+					e.gateOpen.Store(true)
+					if !broker.WaitFor(wd, func() bool {
+						if len(b.Sessions()) <= n0 {
+							return false
+						}
+						e.mu.Lock()
+						defer e.mu.Unlock()
+						return e.ninc > inc+1
+					}) {
+						return bad("the connection did not redial within the watchdog (second failure inside the resume window)")
+					}
+					expectHits = e.gateHits.Load()
+					var us []string
+					for _, k := range unackedNow() {
+						us = append(us, fmt.Sprint(k))
+					}
+					unackedT = append(unackedT, fmt.Sprintf("(%d,%s)", inc, coqfmt.List(us)))
+					linkUp = true
+					inc++
+					needResume = true
+					emit("ERedial", 0)
+					time.Sleep(2 * time.Millisecond)
+					afterWindow, sawWindow = true, true
+					close(plog.infoRelease)
+					// the resumed run starts on the dead second connection and must notice at once
+					emit("EDetect", 0)
+					continue
+				}
 				// the new run lists (reliable) or clears (otherwise) the stream's stored chunks first
 				if !broker.WaitFor(wd, func() bool { return st.lists.Load() != lists0 }) {
 					return bad("after a successful resume the new run neither listed nor cleared the sent storage within the watchdog")
@@ -1738,6 +1843,35 @@ func main() {
 			c.Steps = append(c.Steps, stepIn{Op: "close"})
 			add(c, "non-reliable-siblings-resume-first")
 		}
+		// --- a second failure INSIDE the resume window (between the resume response and the start of the resumed run)
+		for i := 0; i < 2; i++ {
+			c := &caseIn{Keep: true, Reliable: true, Policy: "none", SliceMode: 1 + i}
+			c.Steps = append(pairs(1+i), outageOK(stepIn{Op: "resume", Outcome: "ok", Window: true})...)
+			c.Steps = append(c.Steps, stepIn{Op: "resume", Outcome: "ok"})
+			c.Steps = append(c.Steps, wf(3, 2)...)
+			c.Steps = append(c.Steps, stepIn{Op: "close"})
+			add(c, "second-failure-inside-resume-window")
+		}
+		if *tier == "thorough" {
+			// probe of the late-cleanup race (no 30 ms grace): flagged cases carry Sig F43
+			for i := 0; i < 20; i++ {
+				c := &caseIn{Keep: true, Reliable: true, Policy: "none", SliceMode: 1 + i%3, LateCleanupProbe: true}
+				c.Steps = append(pairs(1+i%2), outageOK(stepIn{Op: "resume", Outcome: "ok", Window: true})...)
+				c.Steps = append(c.Steps, stepIn{Op: "resume", Outcome: "ok"})
+				c.Steps = append(c.Steps, wf(3, 2)...)
+				c.Steps = append(c.Steps, stepIn{Op: "close"})
+				add(c, "late-cleanup-probe")
+			}
+		}
+		// --- an outage longer than the stream's expiry interval (1 s): the code as it is always tries to resume; the
+		// stream must end resumed or reported closed, never silently detached
+		{
+			c := &caseIn{Keep: true, Reliable: true, Policy: "none", ExpiryMs: 1000}
+			c.Steps = append(pairs(2), stepIn{Op: "cut"}, stepIn{Op: "detect"}, stepIn{Op: "redial", HoldMs: 1300}, stepIn{Op: "resume", Outcome: "ok"})
+			c.Steps = append(c.Steps, wf(1, 2)...)
+			c.Steps = append(c.Steps, stepIn{Op: "close"})
+			add(c, "outage-longer-than-expiry-interval")
+		}
 		// --- slow: the ack of a retransmitted chunk is withheld for longer than any default the library might
 		// apply (1.3 s; no ack timeout configured), then a second failure: the chunk must be retransmitted again
 		nslow := 1
@@ -1838,7 +1972,7 @@ func main() {
 		}
 		w.Add(cs)
 	}
-	rule := "the transport dies (loud/silent) while Close waits for acks: resume, retransmission, Close completes; unreliable/partial sibling upstreams on the same connection and storage whose resume is answered first; Close during the resend phase (n=2..3 unacknowledged chunks, Close issued between the k-th and the next resent chunk, pinned by a pausing logger); one slow case (ack of a retransmitted chunk withheld 1.3 s, second failure, must be retransmitted again); a configured 150 ms ack timeout on a live connection (removal by design = EAckTimeout); exhaustive: every cut position (before/after each of n write+flush pairs) x every subset of the chunks in flight acknowledged before the cut (out of order included) x loud/silent death x producer slice discipline (one reused slice / windows of one array / fresh), resume ok, one more write, close; random: 2-5 pairs, cut anywhere, writes between the cut and its detection (chunk lost / final flush at cancellation), writes issued while resuming, resume outcomes ok / conflict(s)-then-ok / refused / exchange cut, a second outage (during the resend phase after the k-th resent chunk, or later), policies none/size/immediate, payload-keeping and default storage, 10% unreliable. non-trivial = an outage with >=1 stored unacknowledged chunk and a write accepted after it, or >=1 retransmitted chunk; distinct = distinct Coq case terms"
+	rule := "a second failure (cut, detection, redial) between the resume response and the start of the resumed run, pinned by a logger pausing in the library's resume-success message; an outage of 1.3 s with a 1 s expiry interval; the transport dies (loud/silent) while Close waits for acks: resume, retransmission, Close completes; unreliable/partial sibling upstreams on the same connection and storage whose resume is answered first; Close during the resend phase (n=2..3 unacknowledged chunks, Close issued between the k-th and the next resent chunk, pinned by a pausing logger); one slow case (ack of a retransmitted chunk withheld 1.3 s, second failure, must be retransmitted again); a configured 150 ms ack timeout on a live connection (removal by design = EAckTimeout); exhaustive: every cut position (before/after each of n write+flush pairs) x every subset of the chunks in flight acknowledged before the cut (out of order included) x loud/silent death x producer slice discipline (one reused slice / windows of one array / fresh), resume ok, one more write, close; random: 2-5 pairs, cut anywhere, writes between the cut and its detection (chunk lost / final flush at cancellation), writes issued while resuming, resume outcomes ok / conflict(s)-then-ok / refused / exchange cut, a second outage (during the resend phase after the k-th resent chunk, or later), policies none/size/immediate, payload-keeping and default storage, 10% unreliable. non-trivial = an outage with >=1 stored unacknowledged chunk and a write accepted after it, or >=1 retransmitted chunk; distinct = distinct Coq case terms"
 	if err := w.Flush(*seed, *tier, rule, false, map[string]interface{}{"timing_discards": discards}); err != nil {
 		fmt.Fprintln(os.Stderr, err)
 		os.Exit(2)
